@@ -691,7 +691,7 @@ def gen_entry_layout(chk, n):
 
 def gen_numeric(chk, n):
     """cost magnitudes for the row-minimum mask: the triple scaled by 2^10..2^20 or 2^-8..2^-14, or three costs up to 12
-    binary orders apart (every float32 step of the table stays exact, ties stay ties)"""
+    (kind wide: 17-18) binary orders apart (every float32 step of the table stays exact, ties stay ties)"""
     rng = chk.rng
     cases = []
     for c in gen_ties(chk, n):
@@ -699,13 +699,19 @@ def gen_numeric(chk, n):
             continue
         if rng.random() < 0.5:
             c["costs"] = [rng.randint(1, 12) for _ in range(3)]
-        kind = rng.choice(["big", "small", "spread"])
+        kind = rng.choice(["big", "small", "spread", "wide", "wide"])
         uni = len(set(c["costs"])) == 1
         if kind == "big":
             e = rng.choice([10, 16, 20])
             c["costs"] = [k * 2 ** e for k in c["costs"]]
         elif kind == "small":
             c["scale"] = SCALE * 2 ** rng.choice([8, 14])
+        elif kind == "wide":
+            # one cost 17-18 binary orders below the others: table cells that differ by ONE small unit differ by less than
+            # 1e-5 relative (a tolerant tie test - isclose - would merge them) while every float32 step stays exact (< 2^24)
+            es = [0, 17, 18]
+            rng.shuffle(es)
+            c["costs"] = [rng.randint(1, 3) * 2 ** e for e in es]
         else:
             c["scale"] = SCALE * 2 ** 6
             c["costs"] = [k * 2 ** (0 if uni else rng.choice([0, 6, 12])) for k in c["costs"]]
